@@ -78,13 +78,24 @@ def judgeFrameModel (r : Rec) : List (String × String) × List String := Id.run
       if code == 117 then return ([], ["framemodel.skipped"])      -- an uncompressed update: not modelled
       hist := .update ((inp.drop pos).take n) false :: hist
       pos := pos + n; pc := pc + 5
-  match LZ4V.Model.FrameFast.frameOfOps LZ4V.Spec.FrameL.xxhEnv (fun s b => LZ4V.Model.Fast.realHash s b) p hist.reverse with
+  -- the LZ4 state of the context when the first block arrives (dumped from the real context; empty: no block was ever compressed)
+  let ini := if r.args.size > 15 then r.bytes 15 else ByteArray.empty
+  let tt := if ini.size ≥ 8 then rdLE ini 4 4 else 0
+  let S0 : LZ4V.Model.FastR.RState :=
+    if ini.size ≥ 8 + 4 * LZ4V.Gen.LZ4_HASH_SIZE_U32 && tt != 0 then
+      (if tt == 3 then { tbl := (Array.range (2 * LZ4V.Gen.LZ4_HASH_SIZE_U32)).map (fun i => rdLE ini (8 + 2 * i) 2), currentOffset := rdLE ini 0 4, tableType := .byU16 }
+       else { tbl := (Array.range LZ4V.Gen.LZ4_HASH_SIZE_U32).map (fun i => rdLE ini (8 + 4 * i) 4), currentOffset := rdLE ini 0 4, tableType := .byU32 })
+    else {}
+  -- the hypothesis of the theorem (`FastR.J`), checked on the real state
+  if ini.size ≥ 8 && (S0.tbl.any (fun v => v > S0.currentOffset) || (tt == 0 && rdLE ini 0 4 != 0) || tt == 1) then
+    return ([("stream_state_invariant_broken", s!"independent-blocks frame: the LZ4 state of the context at the first block: tableType={tt} currentOffset={rdLE ini 0 4} or a table entry above currentOffset")], [])
+  match LZ4V.Model.FrameFast.frameOfOpsFrom LZ4V.Spec.FrameL.xxhEnv (fun s b => LZ4V.Model.Fast.realHash s b) p S0 hist.reverse with
   | none => return ([("model_frame_bytes_differs", "the model refuses this call history")], [])
   | some f =>
     if f != frame.toList then
       let d := (List.range (min f.length frame.size)).find? (fun i => f.getD i 0 != frame.get! i)
       return ([("model_frame_bytes_differs", s!"model frame {f.length} bytes, real frame {frame.size} bytes, first difference at {d} (bsid={p.bsid} level={p.level} bcrc={p.blockChecksum} ccrc={p.contentChecksum} csize={p.contentSize} dictID={p.dictID} autoFlush={p.autoFlush})")], [])
-    return ([], ["framemodel.same"])
+    return ([], ["framemodel.same", if tt == 0 then "framemodel.fresh_state" else if tt == 3 then "framemodel.reused_state_byU16" else "framemodel.reused_state_byU32"])
 
 /-- record kind 6 (fresh context, fast level, LINKED blocks, no dictionary, compressed updates only): the schedule logged by the interposed
     `LZ4_compress_fast_continue` / `LZ4_saveDict` calls is replayed by `Model/FrameLinked.lean`; the frame bytes must be the model's, the blocks of the
